@@ -296,7 +296,7 @@ func genUmap(r *vlib.R, emit func(string)) {
 		case x < 95:
 			emit("umap slots")
 		case x < 97:
-			emit("umap iter")
+			emit(vlib.Pick(r, []string{"umap iter", "umap keys", "umap values", fmt.Sprintf("umap first %d", r.Intn(len(uRef)+2))}))
 		case x < 99:
 			if cache.VerifUMapDataLen(um) <= 256 {
 				emit("umap grow")
@@ -401,8 +401,10 @@ func genSegmap(r *vlib.R, emit func(string)) {
 			emit(fmt.Sprintf("segmap pine %d %d", p.pick(r), val(r)))
 		case x < 88:
 			emit("segmap len")
-		case x < 91:
+		case x < 90:
 			emit("segmap reach")
+		case x < 91:
+			emit(vlib.Pick(r, []string{"segmap keys", "segmap values", fmt.Sprintf("segmap first %d", r.Intn(len(sRef)+2))}))
 		case x < 93:
 			emit("segmap dump")
 		case x < 94:
@@ -633,7 +635,18 @@ func genStall(r *vlib.R, tier string, emit func(string)) {
 	emit("conc new")
 	emit(fmt.Sprintf("conc stall segmap %d %d", vlib.Pick(r, []int{2, 2, 1, 3}), r.U64()>>1))
 	emit(fmt.Sprintf("conc stall cache %d %d", vlib.Pick(r, []int{2, 2, 1, 3}), r.U64()>>1))
+	// several goroutines on ONE key arriving while its segment is write-locked
+	for mode := 0; mode <= 3; mode++ {
+		emit(fmt.Sprintf("conc dup %s %d %d", vlib.Pick(r, []string{"cache", "segmap"}), mode, r.U64()>>1))
+	}
+	emit(fmt.Sprintf("conc dup cache %d %d", vlib.Pick(r, []int{0, 3}), r.U64()>>1))
 	if tier == "thorough" {
+		for mode := 0; mode <= 3; mode++ {
+			for i := 0; i < 4; i++ {
+				emit(fmt.Sprintf("conc dup cache %d %d", mode, r.U64()>>1))
+				emit(fmt.Sprintf("conc dup segmap %d %d", mode, r.U64()>>1))
+			}
+		}
 		for d := 1; d <= 3; d++ {
 			emit(fmt.Sprintf("conc stall segmap %d %d", d, r.U64()>>1))
 			emit(fmt.Sprintf("conc stall cache %d %d", d, r.U64()>>1))
